@@ -68,6 +68,12 @@ def one_job(args):
     if list(MODES)[case % 5].startswith("check") and s.pkts[0] and len(s.pkts[0]) > 1:
         # check modes: always some finding early in the stream, so that findings about complete packets exist for nearly every cut
         s.pkts[0][1].f["bc"] = 0xFFF
+    if case % 3 == 0:
+        # headers with an out-of-range data format byte (an [E10] in the full run): the end-of-input messages of the reader quote the header too
+        for lp in s.pkts:
+            for j, p in enumerate(lp[1:]):
+                if j == 0 or rng.random() < 0.3:
+                    p.f["data_format"] = rng.choice([1, 3, 255])
     data = s.serialize()
     if every and len(data) > 12000:
         s = gen.generate(rng.getrandbits(40), n_links=1, hbfs=1, hits="none", max_triggers=1, max_pages=1)
